@@ -1,7 +1,282 @@
 import KoordVerif.Model.C06
+import KoordVerif.Proofs.C06Numa
+import KoordVerif.Proofs.C06Ledger
+/-
+C06 — CPU and NUMA allocations are exact, disjoint and within capacity.
+
+Layer A (NUMA split, `tryBestToDistributeEvenly` per resource name) and Layer B (ledger,
+`NodeAllocation`) are proved for ALL inputs / histories of the model.  Layer C (picker) : see the
+end of the file.  Amounts are milli-units; `isum` is the list sum.
+-/
 namespace KoordVerif.C06
 
-theorem allocateRes_le (a r : Int) : allocateRes a r ≤ a := by
-  unfold allocateRes; split <;> [omega; (split <;> omega)]
+/-! ## Layer A — NUMA split -/
+
+/-- whatever the outcome: what was handed out plus what is left is the request. -/
+theorem numa_conserves (mode : SplitMode) (free : Nat → Int) (hint : List Nat) (req : Int) :
+    isum ((numaSplit mode true free hint req).allocs.map (·.2)) +
+      (numaSplit mode true free hint req).remaining = req := by
+  simp only [numaSplit, ↓reduceIte]
+  exact distribute_sum mode free _ req
+
+/-- **numa_exact_and_within**: a split that reports no "Insufficient NUMA …" reason hands out
+    exactly the request, takes from hinted nodes only, never more from a node than it has free,
+    and records no zero entry.  All modes, all hints, all amounts (no sign/size assumption). -/
+theorem numa_exact_and_within (mode : SplitMode) (free : Nat → Int) (hint : List Nat) (req : Int)
+    (hok : (numaSplit mode true free hint req).failed = false) :
+    isum ((numaSplit mode true free hint req).allocs.map (·.2)) = req ∧
+    ∀ e ∈ (numaSplit mode true free hint req).allocs, e.2 ≤ free e.1 ∧ e.1 ∈ hint ∧ e.2 ≠ 0 := by
+  have hsum := numa_conserves mode free hint req
+  simp only [numaSplit, ↓reduceIte] at hok hsum ⊢
+  have hz : (distribute mode free (sortByKey free hint) req).2 = 0 := by simpa using hok
+  refine ⟨by omega, fun e he => ?_⟩
+  have := distribute_mem mode free _ req e he
+  exact ⟨this.1, (sortByKey_perm free hint).mem_iff.mp this.2.1, this.2.2⟩
+
+/-- a node receives at most one entry (hint ids come from a bit mask: no duplicates). -/
+theorem numa_nodes_distinct (mode : SplitMode) (free : Nat → Int) (hint : List Nat) (req : Int)
+    (hnd : hint.Nodup) : ((numaSplit mode true free hint req).allocs.map (·.1)).Nodup := by
+  simp only [numaSplit, ↓reduceIte]
+  exact (distribute_ids_sublist mode free _ req).nodup
+    ((sortByKey_perm free hint).nodup_iff.mpr hnd)
+
+/-- the resource is "freely divisible" for this call: cpu in milli (no cpu-bind), or a
+    whole-unit resource whose request and hinted free amounts are whole. -/
+def Divisible (mode : SplitMode) (free : Nat → Int) (hint : List Nat) (req : Int) : Prop :=
+  match mode with
+  | .milli => True
+  | .value => 1000 ∣ req ∧ ∀ id ∈ hint, 1000 ∣ free id
+  | .fullPCPUs _ => False
+
+/-- **numa_complete** (DESIGN Appendix A.4), for the code as it is: for a freely divisible
+    resource the split succeeds whenever the hinted nodes together have enough free —
+    whichever node ids the hint names, in whatever order, any number of nodes. -/
+theorem numa_complete (mode : SplitMode) (free : Nat → Int) (hint : List Nat) (req : Int)
+    (hdiv : Divisible mode free hint req) (hreq : 0 ≤ req) (hfree : ∀ id ∈ hint, 0 ≤ free id)
+    (henough : req ≤ isum (hint.map free)) :
+    (numaSplit mode true free hint req).failed = false := by
+  have hperm := sortByKey_perm free hint
+  have hsorted := sortByKey_sorted free hint
+  have hsum : isum ((sortByKey free hint).map free) = isum (hint.map free) :=
+    isum_perm (hperm.map free)
+  simp only [numaSplit, ↓reduceIte]
+  suffices h : (distribute mode free (sortByKey free hint) req).2 = 0 by simp [h]
+  cases mode with
+  | milli =>
+    exact distribute_complete splitOK_milli free _ req hsorted
+      (fun id hid => ⟨hfree id (hperm.mem_iff.mp hid), Int.one_dvd _⟩) hreq (Int.one_dvd _) (by omega)
+  | value =>
+    exact distribute_complete splitOK_value free _ req hsorted
+      (fun id hid => ⟨hfree id (hperm.mem_iff.mp hid), hdiv.2 id (hperm.mem_iff.mp hid)⟩)
+      hreq hdiv.1 (by omega)
+  | fullPCPUs cpc => exact absurd hdiv (by simp [Divisible])
+
+/-- a name that no NUMA node declares is neither allocated nor reported (code as written). -/
+theorem numa_undeclared (mode : SplitMode) (free : Nat → Int) (hint : List Nat) (req : Int) :
+    numaSplit mode false free hint req = { allocs := [], remaining := req, failed := false } := by
+  simp [numaSplit]
+
+/-- the divisibility premise of `numa_complete` is needed: whole physical cores are not freely
+    divisible (2 threads/core, free 1 and 3 CPUs, request 4 is rejected). -/
+theorem numa_fullpcpus_not_complete :
+    ¬ (∀ (free : Nat → Int) (hint : List Nat) (req : Int), 0 ≤ req → (∀ id ∈ hint, 0 ≤ free id) →
+        req ≤ isum (hint.map free) → (numaSplit (.fullPCPUs 2) true free hint req).failed = false) := by
+  intro h
+  have := h (getI [(0, 1000), (1, 3000)]) [0, 1] 4000 (by decide) (by decide) (by decide)
+  revert this; decide
+
+-- non-vacuity: the repaired regression (hint {1,2}, free (10,2), request 8) and a 3-node split
+example : (numaSplit .milli true (getI [(1, 10000), (2, 2000)]) [1, 2] 8000)
+    = { allocs := [(2, 2000), (1, 6000)], remaining := 0, failed := false } := by decide
+example : (numaSplit .value true (getI [(0, 5000), (3, 1000), (5, 9000)]) [0, 3, 5] 11000).failed = false := by
+  decide
+example : Divisible .value (getI [(0, 5000), (3, 1000), (5, 9000)]) [0, 3, 5] 11000 := by
+  refine ⟨by decide, ?_⟩
+  intro id hid
+  simp at hid
+  rcases hid with rfl | rfl | rfl <;> decide
+
+/-! ## Layer B — ledger -/
+
+/-- **ledger_inv** (ref-counts): after ANY history of add / update / release — any interleaving,
+    duplicates, unknown pods, overlapping CPU sets — the RefCount of every CPU is the number of
+    live pods holding it. -/
+theorem ledger_refcount (ops : List Op) (hok : ∀ op ∈ ops, OpOK op) (c : Nat) :
+    refOf (run ops).cpus c = holdCount (run ops).pods c :=
+  (inv_foldl ops _ inv_empty hok).refs c
+
+/-- **ledger_inv** (NUMA amounts): the allocation ledger of every (node, resource) cell equals the
+    sum of the live pods' allocations (amounts non-negative). -/
+theorem ledger_numa (ops : List Op) (hok : ∀ op ∈ ops, OpOK op) (k : Nat) :
+    getI (run ops).res k = cellSum (run ops).pods k :=
+  (inv_foldl ops _ inv_empty hok).cells k
+
+/-- a pod is recorded at most once; recorded CPUs have a positive count. -/
+theorem ledger_wellformed (ops : List Op) (hok : ∀ op ∈ ops, OpOK op) :
+    ((run ops).pods.map (·.uid)).Nodup ∧ PosRefs (run ops).cpus :=
+  ⟨(inv_foldl ops _ inv_empty hok).uids, (inv_foldl ops _ inv_empty hok).pos⟩
+
+/-- duplicate add is a no-op. -/
+theorem add_duplicate_noop (L : Ledger) (p : PodAlloc) (h : hasPod L.pods p.uid = true) :
+    addPod L p = L := by
+  simp [addPod, h]
+
+/-- `getAvailableCPUs` (no restored CPUs) = topology CPUs that are not reserved and are held by
+    fewer pods than the sharing limit. -/
+theorem available_spec (topo : List Nat) (m : CpuMap) (maxRef : Int) (reserved : List Nat)
+    (hmax : 1 ≤ maxRef) (c : Nat) :
+    c ∈ availableCPUs topo m maxRef reserved [] ↔ c ∈ topo ∧ c ∉ reserved ∧ refOf m c < maxRef := by
+  unfold availableCPUs refOf
+  simp only [List.foldl_nil, List.mem_filter, Bool.and_eq_true, Bool.not_eq_eq_eq_not, Bool.not_true]
+  cases hg : cpuGet m c with
+  | none => simp; omega
+  | some r => simp; intro _; exact And.comm
+
+/-- every allocation is drawn from the CPUs that are available to that pod at that moment
+    (for an update: after the pod's own previous holding is returned). -/
+def Drawn (topo : List Nat) (maxRef : Int) (reserved : List Nat) (L : Ledger) : Op → Prop
+  | .add p => hasPod L.pods p.uid = false →
+      p.cpus.Nodup ∧ ∀ c ∈ p.cpus, c ∈ availableCPUs topo L.cpus maxRef reserved []
+  | .upd p =>
+      p.cpus.Nodup ∧ ∀ c ∈ p.cpus, c ∈ availableCPUs topo (releasePod L p.uid).cpus maxRef reserved []
+  | .rel _ => True
+
+def AllDrawn (topo : List Nat) (maxRef : Int) (reserved : List Nat) : Ledger → List Op → Prop
+  | _, [] => True
+  | L, op :: ops => Drawn topo maxRef reserved L op ∧ AllDrawn topo maxRef reserved (step L op) ops
+
+instance decDrawn (topo : List Nat) (maxRef : Int) (reserved : List Nat) (L : Ledger) (op : Op) :
+    Decidable (Drawn topo maxRef reserved L op) := by
+  cases op <;> simp only [Drawn] <;> exact inferInstance
+
+instance decAllDrawn (topo : List Nat) (maxRef : Int) (reserved : List Nat) :
+    ∀ (L : Ledger) (ops : List Op), Decidable (AllDrawn topo maxRef reserved L ops)
+  | _, [] => isTrue trivial
+  | L, op :: ops => by
+    unfold AllDrawn
+    exact @instDecidableAnd _ _ _ (decAllDrawn topo maxRef reserved _ ops)
+
+theorem count_le_one_of_nodup : ∀ (l : List Nat), l.Nodup → ∀ c, l.count c ≤ 1
+  | [], _, c => by simp
+  | x :: xs, h, c => by
+    rw [List.nodup_cons] at h
+    rw [List.count_cons]
+    have ih := count_le_one_of_nodup xs h.2 c
+    by_cases hx : x = c
+    · subst hx
+      have : xs.count x = 0 := List.count_eq_zero.mpr h.1
+      simp; omega
+    · simp [hx]; exact ih
+
+theorem cnt_le_one_of_nodup {l : List Nat} (h : l.Nodup) (c : Nat) :
+    cnt l c ≤ 1 ∧ (cnt l c = 1 → c ∈ l) := by
+  unfold cnt
+  have h1 := count_le_one_of_nodup l h c
+  refine ⟨by omega, fun h2 => ?_⟩
+  have : 0 < l.count c := by omega
+  exact List.count_pos_iff.mp this
+
+theorem addPod_within_limit {topo : List Nat} {maxRef : Int} {reserved : List Nat} {L : Ledger}
+    (hinv : Inv L) (hmax : 1 ≤ maxRef) (hb : ∀ c, refOf L.cpus c ≤ maxRef) (p : PodAlloc)
+    (hd : hasPod L.pods p.uid = false →
+      p.cpus.Nodup ∧ ∀ c ∈ p.cpus, c ∈ availableCPUs topo L.cpus maxRef reserved []) :
+    ∀ c, refOf (addPod L p).cpus c ≤ maxRef := by
+  intro c
+  unfold addPod
+  split
+  · exact hb c
+  · rename_i hnew
+    have hnew' : hasPod L.pods p.uid = false := by simpa using hnew
+    obtain ⟨hnd, hav⟩ := hd hnew'
+    dsimp only
+    rw [(foldl_addCPU p.excl p.cpus L.cpus hinv.pos).2 c]
+    have hc := cnt_le_one_of_nodup hnd c
+    have hnn := cnt_nonneg p.cpus c
+    by_cases h1 : cnt p.cpus c = 1
+    · have := (available_spec topo L.cpus maxRef reserved hmax c).mp (hav c (hc.2 h1))
+      omega
+    · have := hb c; omega
+
+theorem share_limit_from {topo : List Nat} {maxRef : Int} {reserved : List Nat} (hmax : 1 ≤ maxRef)
+    (ops : List Op) : ∀ L, Inv L → (∀ c, refOf L.cpus c ≤ maxRef) → (∀ op ∈ ops, OpOK op) →
+      AllDrawn topo maxRef reserved L ops → ∀ c, refOf (ops.foldl step L).cpus c ≤ maxRef := by
+  induction ops with
+  | nil => intro L _ hb _ _ c; exact hb c
+  | cons op ops ih =>
+    intro L hinv hb hok hdr
+    have hop := hok op (by simp)
+    obtain ⟨hd, hrest⟩ := hdr
+    refine ih (step L op) (inv_step hinv op hop) ?_ (fun o ho => hok o (by simp [ho])) hrest
+    cases op with
+    | add p => exact addPod_within_limit hinv hmax hb p hd
+    | upd p =>
+      have hs := releasePod_spec hinv p.uid
+      exact addPod_within_limit hs.1 hmax (fun c => by have := hs.2.2 c; have := hb c; omega) p
+        (fun _ => hd)
+    | rel u =>
+      intro c
+      have := (releasePod_spec hinv u).2.2 c
+      have := hb c
+      simp only [step]; omega
+
+/-- **share limit**: if every allocation is drawn from the CPUs available at that moment, no CPU is
+    ever held by more pods than the sharing limit — however allocations, updates and releases
+    (also of unknown pods, also duplicate adds) interleave. -/
+theorem share_limit (topo : List Nat) (maxRef : Int) (reserved : List Nat) (hmax : 1 ≤ maxRef)
+    (ops : List Op) (hok : ∀ op ∈ ops, OpOK op) (hdr : AllDrawn topo maxRef reserved Ledger.empty ops)
+    (c : Nat) : holdCount (run ops).pods c ≤ maxRef := by
+  rw [← ledger_refcount ops hok c]
+  exact share_limit_from hmax ops _ inv_empty (fun c => by simp [Ledger.empty, refOf, cpuGet]; omega)
+    hok hdr c
+
+theorem disjoint_of_holdCount_le_one : ∀ (pods : List PodAlloc), (∀ c, holdCount pods c ≤ 1) →
+    pods.Pairwise (fun p q => ∀ c, c ∈ p.cpus → c ∉ q.cpus) := by
+  intro pods
+  induction pods with
+  | nil => intro _; exact List.Pairwise.nil
+  | cons p ps ih =>
+    intro h
+    have hnn : ∀ c, 0 ≤ holdCount ps c := fun c =>
+      isum_map_nonneg _ _ (fun q _ => cnt_nonneg q.cpus c)
+    have hcons : ∀ c, holdCount (p :: ps) c = cnt p.cpus c + holdCount ps c := fun c => by
+      simp [holdCount]
+    rw [List.pairwise_cons]
+    refine ⟨fun q hq c hc hcq => ?_, ih (fun c => ?_)⟩
+    · have h1 : 1 ≤ cnt p.cpus c := by
+        unfold cnt; have := List.count_pos_iff.mpr hc; omega
+      have h2 : 1 ≤ holdCount ps c := by
+        have hq1 : 1 ≤ cnt q.cpus c := by
+          unfold cnt; have := List.count_pos_iff.mpr hcq; omega
+        clear ih h hcons hnn
+        induction ps with
+        | nil => simp at hq
+        | cons r rs ihr =>
+          have hr : 0 ≤ cnt r.cpus c := cnt_nonneg _ _
+          have hrs : 0 ≤ holdCount rs c := isum_map_nonneg _ _ (fun q _ => cnt_nonneg q.cpus c)
+          have e : holdCount (r :: rs) c = cnt r.cpus c + holdCount rs c := by simp [holdCount]
+          rcases List.mem_cons.mp hq with rfl | hq'
+          · omega
+          · have := ihr hq'; omega
+      have := h c; have := hcons c; omega
+    · have := h c; have := hcons c; have := cnt_nonneg p.cpus c; omega
+
+/-- default sharing limit 1 ⇒ the CPU sets of the live pods are pairwise disjoint. -/
+theorem cpus_disjoint_default (topo reserved : List Nat) (ops : List Op)
+    (hok : ∀ op ∈ ops, OpOK op) (hdr : AllDrawn topo 1 reserved Ledger.empty ops) :
+    (run ops).pods.Pairwise (fun p q => ∀ c, c ∈ p.cpus → c ∉ q.cpus) :=
+  disjoint_of_holdCount_le_one _ (fun c => share_limit topo 1 reserved (by omega) ops hok hdr c)
+
+-- non-vacuity: a history with an update of a live pod, a duplicate add and a release
+example :
+    let p1 : PodAlloc := { uid := 1, excl := 0, cpus := [0, 1], numa := [(0, 2000)] }
+    let p2 : PodAlloc := { uid := 2, excl := 2, cpus := [2], numa := [(0, 1000), (16, 1000)] }
+    let p1' : PodAlloc := { uid := 1, excl := 0, cpus := [3], numa := [(16, 500)] }
+    let ops := [Op.upd p1, Op.upd p2, Op.add p1', Op.upd p1', Op.rel 7]
+    (∀ op ∈ ops, OpOK op) ∧ AllDrawn [0, 1, 2, 3] 1 [] Ledger.empty ops ∧
+    (run ops).pods.map (·.uid) = [1, 2] ∧ getI (run ops).res 16 = 1500 ∧ refOf (run ops).cpus 3 = 1 := by
+  refine ⟨?_, by decide, by decide, by decide, by decide⟩
+  intro op hop
+  simp at hop
+  rcases hop with rfl | rfl | rfl | rfl | rfl <;> simp [OpOK, PodOK]
 
 end KoordVerif.C06
